@@ -78,7 +78,20 @@ func (d *redisDatum) ToString() (value string, success bool) {
 	}
 }
 
+// maxRedisDepth bounds the nesting of arrays in a request: every level is a
+// recursive call, and a client could otherwise exhaust the goroutine stack
+// (a fatal error that ends the process) with a few megabytes of "*1" lines.
+const maxRedisDepth = 32
+
 func parseRedisData(scanner *bufio.Scanner) (redisDatum, error) {
+	return parseRedisDataDepth(scanner, 0)
+}
+
+func parseRedisDataDepth(scanner *bufio.Scanner, depth int) (redisDatum, error) {
+	if depth > maxRedisDepth {
+		return redisDatum{}, fmt.Errorf("Arrays nested deeper than %d", maxRedisDepth)
+	}
+
 	success := scanner.Scan()
 	if !success {
 		err := scanner.Err()
@@ -99,7 +112,7 @@ func parseRedisData(scanner *bufio.Scanner) (redisDatum, error) {
 		}
 		var items []interface{}
 		for i := uint64(0); i < n; i++ {
-			item, err := parseRedisData(scanner)
+			item, err := parseRedisDataDepth(scanner, depth+1)
 			if err != nil {
 				return redisDatum{}, err
 			}
